@@ -8,6 +8,8 @@ import NumbersModel.Drv.Storage
 import NumbersModel.Drv.StringTable
 import NumbersModel.Drv.Iwa
 import NumbersModel.Drv.Loader
+import NumbersModel.Drv.Formula
+import NumbersModel.Drv.Refs
 
 open NumbersModel.Drv
 
@@ -25,6 +27,8 @@ def dispatch (line : String) : String :=
     | "strtab" :: rest => handleStrTab rest
     | "iwa" :: rest => handleIwa rest
     | "loader" :: rest => handleLoader rest
+    | "formula" :: rest => handleFormula rest
+    | "refs" :: rest => handleRefs rest
     | _ => none
   match r with
   | some s => s
